@@ -731,8 +731,7 @@ Proof.
            pnobrk (pbind (pitem f c) (fun v => pmap (cons (k, v)) (ppairs_indef f c)))))).
   - intros bs. rewrite ppairs_indef_S. destruct bs as [|mb r]; [reflexivity|]. cbn [pbrk].
     destruct (mb =? sigBreak); [reflexivity|]. unfold pbind at 1.
-    destruct (pitem f c (mb :: r)) as [k r1|e|]; try reflexivity.
-    destruct r1 as [|mb2 r2]; reflexivity.
+    destruct (pitem f c (mb :: r)) as [k r1|e|]; reflexivity.
   - apply good_pbrk; [constructor|].
     eapply good_bind; [apply Hi|]. intros k.
     apply good_pnobrk.
@@ -777,3 +776,647 @@ Proof. intros H. destruct (g_all f) as [Hi _]. apply (Hi c bs n rest H). Qed.
 Lemma pitem_shape f c bs n rest :
   bytes_ok bs -> pitem f c bs = POk n rest -> shape false n /\ bytes_ok rest.
 Proof. intros Hb H. destruct (g_all f) as [Hi _]. apply (Hi c bs n rest H). exact Hb. Qed.
+
+(* ====================================================================== *)
+(* 5. Consequences of [shape]: the side conditions of the encoder and of   *)
+(*    the CBOR round-trip theorem                                          *)
+(* ====================================================================== *)
+
+Lemma Forall_mp {A} (P Q : A -> Prop) l : Forall (fun x => P x -> Q x) l -> Forall P l -> Forall Q l.
+Proof. induction 1; intros H'; inversion H'; subst; constructor; auto. Qed.
+
+Lemma forallb_flat_map {A B} (p : B -> bool) (f : A -> list B) l :
+  forallb p (flat_map f l) = forallb (fun x => forallb p (f x)) l.
+Proof. induction l as [|x l IH]; [reflexivity|]. cbn [flat_map forallb]. rewrite forallb_app, IH. reflexivity. Qed.
+
+Lemma cap_arr tg d items : str_cap_ok (flatten (Node tg (VArr d items))) = true ->
+  Forall (fun x => str_cap_ok (flatten x) = true) items.
+Proof.
+  unfold str_cap_ok. cbn [flatten forallb tv andb]. rewrite forallb_app, forallb_flat_map.
+  intros H. apply andb_prop in H. destruct H as [H _]. apply Forall_forall. intros x Hx.
+  rewrite forallb_forall in H. apply H. exact Hx.
+Qed.
+
+Lemma cap_map tg d es : str_cap_ok (flatten (Node tg (VMap d es))) = true ->
+  Forall (fun kv => str_cap_ok (flatten (fst kv)) = true /\ str_cap_ok (flatten (snd kv)) = true) es.
+Proof.
+  unfold str_cap_ok. cbn [flatten forallb tv andb]. rewrite forallb_app, forallb_flat_map.
+  intros H. apply andb_prop in H. destruct H as [H _]. apply Forall_forall. intros x Hx.
+  rewrite forallb_forall in H. specialize (H x Hx). rewrite forallb_app in H.
+  apply andb_prop in H. exact H.
+Qed.
+
+Definition shape_conseq (sg : bool) (n : tnode) : Prop :=
+  len_ok n /\ indef_m1 n /\ (wf_keys key_cbor n -> enc_ok n) /\
+  (str_cap_ok (flatten n) = true -> rt_ok n) /\ (sg = false -> canon n = n).
+
+Lemma map_id_Forall {A} (f : A -> A) l : Forall (fun x => f x = x) l -> map f l = l.
+Proof. induction 1; [reflexivity|]. cbn [map]. congruence. Qed.
+
+Lemma shape_facts sg n : shape sg n -> shape_conseq sg n.
+Proof.
+  induction n as [tg v Hleaf|tg d items IH|tg d es IH] using tnode_ind'; intros Hs.
+  - destruct Hs as [Ht Hv]. unfold shape_conseq.
+    unfold CborSpec.two63, CborSpec.two64, str_cap_ok.
+    change (2 ^ 63) with 9223372036854775808. change (2 ^ 64) with 18446744073709551616.
+    destruct v; try contradiction;
+      cbn [len_ok indef_m1 enc_ok rt_ok canon flatten forallb tv];
+      unfold CborSpec.two63, CborSpec.two64;
+      change (2 ^ 63) with 9223372036854775808; change (2 ^ 64) with 18446744073709551616;
+      repeat split; auto; try lia.
+    + destruct sg; lia.
+    + intros ->. destruct (Z.leb_spec 0 i); [lia|reflexivity].
+  - destruct Hs as (Ht & Hd & Hd63 & Hitems). apply fold_pair_Forall in Hitems.
+    pose proof (Forall_mp _ _ _ IH Hitems) as Hq. clear IH. unfold shape_conseq.
+    split; [|split; [|split; [|split]]].
+    + cbn [len_ok]. split; [lia|]. apply fold_pair_Forall.
+      eapply Forall_impl; [|exact Hq]. intros x Hx. apply Hx.
+    + cbn [indef_m1]. split; [lia|]. apply fold_pair_Forall.
+      eapply Forall_impl; [|exact Hq]. intros x Hx. apply Hx.
+    + intros Hwf. apply wf_arr in Hwf. cbn [enc_ok]. split; [exact Ht|]. split.
+      { unfold CborSpec.two63. change (2 ^ 63) with 9223372036854775808. exact Hd63. }
+      apply fold_pair_Forall. eapply Forall_mp; [|exact Hwf].
+      eapply Forall_impl; [|exact Hq]. intros x Hx. apply Hx.
+    + intros Hcap. apply cap_arr in Hcap. cbn [rt_ok]. apply fold_pair_Forall.
+      eapply Forall_mp; [|exact Hcap].
+      eapply Forall_impl; [|exact Hq]. intros x Hx. apply Hx.
+    + intros Hsg. rewrite canon_arr. f_equal. f_equal.
+      * destruct (Z.leb_spec 0 d); lia.
+      * apply map_id_Forall. eapply Forall_impl; [|exact Hq]. intros x Hx. apply Hx. exact Hsg.
+  - destruct Hs as (Ht & Hd & Hd63 & Hes).
+    apply (fold_pair_Forall (fun kv => shape sg (fst kv) /\ shape sg (snd kv))) in Hes.
+    assert (Hq : Forall (fun kv => shape_conseq sg (fst kv) /\ shape_conseq sg (snd kv)) es).
+    { clear -IH Hes. induction IH as [|kv es [H1 H2] _ IHes]; [constructor|].
+      inversion Hes as [|? ? [S1 S2] Hes']; subst. constructor; auto. }
+    clear IH. unfold shape_conseq.
+    split; [|split; [|split; [|split]]].
+    + cbn [len_ok]. split; [lia|].
+      apply (fold_pair_Forall (fun kv => len_ok (fst kv) /\ len_ok (snd kv))).
+      eapply Forall_impl; [|exact Hq]. intros kv [H1 H2]. split; [apply H1|apply H2].
+    + cbn [indef_m1]. split; [lia|].
+      apply (fold_pair_Forall (fun kv => indef_m1 (fst kv) /\ indef_m1 (snd kv))).
+      eapply Forall_impl; [|exact Hq]. intros kv [H1 H2]. split; [apply H1|apply H2].
+    + intros Hwf. apply wf_map in Hwf. cbn [enc_ok]. split; [exact Ht|]. split.
+      { unfold CborSpec.two63. change (2 ^ 63) with 9223372036854775808. exact Hd63. }
+      apply (fold_pair_Forall (fun kv => is_keyable (fst kv) /\ enc_ok (fst kv) /\ enc_ok (snd kv))).
+      eapply Forall_mp; [|exact Hwf].
+      eapply Forall_impl; [|exact Hq]. intros [k w] [H1 H2] [Hk Hw]. cbn [fst snd] in *.
+      destruct k as [ktg kv]. cbn [key_wf] in Hk. destruct Hk as [Hkl Hkk].
+      split; [|split].
+      * destruct kv; try discriminate; exact I.
+      * apply H1. apply wf_leaf. exact Hkl.
+      * apply H2. exact Hw.
+    + intros Hcap. apply cap_map in Hcap. cbn [rt_ok].
+      apply (fold_pair_Forall (fun kv => rt_ok (fst kv) /\ rt_ok (snd kv))).
+      eapply Forall_mp; [|exact Hcap].
+      eapply Forall_impl; [|exact Hq]. intros kv [H1 H2] [C1 C2]. split; [apply H1|apply H2]; assumption.
+    + intros Hsg. rewrite canon_map. f_equal. f_equal.
+      * destruct (Z.leb_spec 0 d); lia.
+      * apply map_id_Forall. eapply Forall_impl; [|exact Hq]. intros [k w] [H1 H2].
+        unfold canon_pair. cbn [fst snd]. f_equal; [apply H1|apply H2]; exact Hsg.
+Qed.
+
+(* token-level form of [canon] *)
+Lemma flatten_canon n : flatten (canon n) = map canon_tok (flatten n).
+Proof.
+  induction n as [tg v Hleaf|tg d items IH|tg d es IH] using tnode_ind'.
+  - destruct v; try contradiction; try reflexivity.
+    cbn [canon flatten map]. unfold canon_tok. cbn [tv tag]. destruct (0 <=? i); reflexivity.
+  - rewrite canon_arr. cbn [flatten map]. unfold canon_tok at 1. cbn [tv tag]. f_equal.
+    rewrite map_app. cbn [map]. f_equal.
+    induction IH as [|x xs Hx _ IHxs]; [reflexivity|].
+    cbn [map flat_map]. rewrite map_app, Hx, IHxs. reflexivity.
+  - rewrite canon_map. cbn [flatten map]. unfold canon_tok at 1. cbn [tv tag]. f_equal.
+    rewrite map_app. cbn [map]. f_equal.
+    induction IH as [|x xs [Hk Hv] _ IHxs]; [reflexivity|].
+    cbn [map flat_map]. rewrite IHxs. unfold canon_pair. cbn [fst snd]. rewrite !map_app, Hk, Hv. reflexivity.
+Qed.
+
+(* ====================================================================== *)
+(* 6. CBOR -> CBOR                                                         *)
+(* ====================================================================== *)
+
+(* the pump succeeds exactly when the decoded tokens pass the encoder's
+   grammar, i.e. every map key is a string / int / uint *)
+Lemma pump_c2c_keys_ok c bs toks rest a :
+  dec_run c bs = DOk toks rest a -> cbor_keys_ok toks = true ->
+  exists chunks, enc_tokens toks = Finished chunks (length toks) /\
+                 pump_c2c c bs = PumpOk (concat chunks) rest.
+Proof.
+  intros H Hk. unfold pump_c2c. rewrite H.
+  pose proof (cbor_encoder_accepts_grammar toks) as Ag.
+  unfold cbor_keys_ok, grammar_okb in Hk.
+  destruct (ctx_run key_cbor [] toks 0) as [m| |]; try discriminate.
+  apply Nat.eqb_eq in Hk. subst m.
+  destruct (enc_tokens toks) as [chunks k| | |]; cbn in Ag; try contradiction. subst k.
+  exists chunks. split; [reflexivity|]. rewrite Nat.eqb_refl. reflexivity.
+Qed.
+
+Lemma pump_c2c_ok_keys c bs toks rest a out r :
+  dec_run c bs = DOk toks rest a -> pump_c2c c bs = PumpOk out r ->
+  cbor_keys_ok toks = true /\ r = rest.
+Proof.
+  intros H Hp. unfold pump_c2c in Hp. rewrite H in Hp.
+  pose proof (cbor_encoder_accepts_grammar toks) as Ag.
+  destruct (enc_tokens toks) as [chunks k| | |]; try discriminate.
+  destruct (Nat.eqb k (length toks)) eqn:E; [|discriminate]. inversion Hp; subst.
+  split; [|reflexivity]. unfold cbor_keys_ok, grammar_okb.
+  destruct (ctx_run key_cbor [] toks 0) as [m| |]; cbn in Ag; try contradiction. subst m. exact E.
+Qed.
+
+(* 1. value preservation *)
+Theorem pump_c2c_value : forall c bs toks rest a,
+  bytes_ok bs -> dec_run c bs = DOk toks rest a ->
+  cbor_keys_ok toks = true -> str_cap_ok toks = true ->
+  exists out,
+    pump_c2c c bs = PumpOk out rest /\
+    (forall tail, exists a', dec_run c (out ++ tail) = DOk toks tail a') /\
+    (exists n, parse_item c bs = POk n rest /\ parse_item c out = POk n [] /\
+               toks = flatten n /\ out = rfc_enc n) /\
+    (exists used, bs = used ++ rest /\ used <> []).
+Proof.
+  intros c bs toks rest a Hb H Hk Hcap.
+  destruct (dec_sound _ _ _ _ _ H) as (n & Hp & ->).
+  pose proof Hp as Hp'. unfold parse_item in Hp'.
+  destruct (pitem_shape _ _ _ _ _ Hb Hp') as [Hs _].
+  destruct (shape_facts _ _ Hs) as (Hlen & _ & Henc & Hrt & Hcanon).
+  apply grammar_ok_wf in Hk. specialize (Henc Hk). specialize (Hrt Hcap). specialize (Hcanon eq_refl).
+  destruct (cbor_encode_spec n Henc) as (chunks & Hrun & Hcat).
+  assert (Htail : forall tail, exists a', dec_run c (rfc_enc n ++ tail) = DOk (flatten n) tail a').
+  { intros tail. destruct (parse_rfc_enc_canon n c tail Henc Hlen Hrt) as [fuel Hf].
+    rewrite Hcanon in Hf. exact (dec_complete fuel c _ _ _ Hf). }
+  exists (rfc_enc n). split; [|split; [|split]].
+  - unfold pump_c2c. rewrite H, Hrun, Nat.eqb_refl, Hcat. reflexivity.
+  - exact Htail.
+  - exists n. split; [exact Hp|]. split; [|split; reflexivity].
+    destruct (Htail []) as [a' Ha']. rewrite app_nil_r in Ha'.
+    destruct (dec_sound _ _ _ _ _ Ha') as (n' & Hp2 & Hfl). apply flatten_inj in Hfl. subst n'. exact Hp2.
+  - exact (dec_consumes_prefix _ _ _ _ _ H).
+Qed.
+
+(* the output is a fixpoint of the pump: re-encoding it reproduces it byte for byte *)
+Corollary pump_c2c_idempotent : forall c bs toks rest a,
+  bytes_ok bs -> dec_run c bs = DOk toks rest a ->
+  cbor_keys_ok toks = true -> str_cap_ok toks = true ->
+  exists out, pump_c2c c bs = PumpOk out rest /\ pump_c2c c out = PumpOk out [].
+Proof.
+  intros c bs toks rest a Hb H Hk Hcap.
+  destruct (pump_c2c_value c bs toks rest a Hb H Hk Hcap) as (out & Hp & Htail & _).
+  exists out. split; [exact Hp|].
+  destruct (Htail []) as [a' Ha']. rewrite app_nil_r in Ha'.
+  destruct (pump_c2c_keys_ok _ _ _ _ _ H Hk) as (chunks & Hrun & Hp1).
+  assert (Hout : out = concat chunks) by congruence.
+  unfold pump_c2c. rewrite Ha', Hrun, Nat.eqb_refl. rewrite <- Hout. reflexivity.
+Qed.
+
+(* 2. errors *)
+Theorem pump_c2c_error : forall c bs e toks a,
+  dec_run c bs = DFail e toks a -> pump_c2c c bs = PumpErr.
+Proof. intros c bs e toks a H. unfold pump_c2c. rewrite H. reflexivity. Qed.
+
+Theorem pump_c2c_err_iff_tokens : forall c bs,
+  pump_c2c c bs = PumpErr <->
+  (exists e toks a, dec_run c bs = DFail e toks a) \/
+  (exists toks rest a, dec_run c bs = DOk toks rest a /\ cbor_keys_ok toks = false).
+Proof.
+  intros c bs. split.
+  - intros Hp. destruct (dec_total c bs) as [(toks & rest & a & H)|(e & toks & a & H)].
+    + right. exists toks, rest, a. split; [exact H|].
+      destruct (cbor_keys_ok toks) eqn:Hk; [|reflexivity].
+      destruct (pump_c2c_keys_ok _ _ _ _ _ H Hk) as (chunks & _ & Hp'). rewrite Hp in Hp'. discriminate.
+    + left. eauto.
+  - intros [(e & toks & a & H)|(toks & rest & a & H & Hk)].
+    + eapply pump_c2c_error; eauto.
+    + destruct (pump_c2c c bs) as [out r|] eqn:Hp; [|reflexivity].
+      destruct (pump_c2c_ok_keys _ _ _ _ _ _ _ H Hp) as [Hk' _]. congruence.
+Qed.
+
+(* ... in terms of the reference reading (C04): the pump fails exactly when the
+   input does not start with a well-formed item, or that item has a map key
+   the CBOR encoder does not take *)
+Theorem pump_c2c_err_iff : forall c bs,
+  pump_c2c c bs = PumpErr <->
+  (exists e, parse_item c bs = PErr e) \/
+  (exists n rest, parse_item c bs = POk n rest /\ ~ wf_keys key_cbor n).
+Proof.
+  intros c bs. rewrite pump_c2c_err_iff_tokens. split.
+  - intros [(e & toks & a & H)|(toks & rest & a & H & Hk)].
+    + left. exists e. eapply dec_rejects; eauto.
+    + right. destruct (dec_sound _ _ _ _ _ H) as (n & Hp & ->). exists n, rest. split; [exact Hp|].
+      intros Hwf. apply grammar_ok_wf in Hwf. unfold cbor_keys_ok in Hk. congruence.
+  - intros [(e & Hp)|(n & rest & Hp & Hwf)].
+    + left. unfold parse_item in Hp. destruct (dec_error _ _ _ _ Hp) as (toks & a & H). eauto.
+    + right. unfold parse_item in Hp. destruct (dec_complete _ _ _ _ _ Hp) as [a H].
+      exists (flatten n), rest, a. split; [exact H|].
+      destruct (cbor_keys_ok (flatten n)) eqn:Hk; [|reflexivity].
+      exfalso. apply Hwf. apply grammar_ok_wf. exact Hk.
+Qed.
+
+(* ---------- the three added hypotheses are needed -------------------------- *)
+
+(* (a) map keys: the decoder accepts any key, the encoder only string/int/uint *)
+Example pump_c2c_keys_refuted :
+  bytes_ok [161; 246; 0] /\
+  dec_run false [161; 246; 0] =
+    DOk [Tok (MapOpen 1) None; Tok Null None; Tok (Uint 0) None; Tok MapClose None] [] 16 /\
+  pump_c2c false [161; 246; 0] = PumpErr.
+Proof. split; [repeat constructor; unfold byte_ok; lia|]. vm_compute. split; reflexivity. Qed.
+
+(* (b) the input must be a byte string (a model-level well-formedness condition) *)
+Example pump_c2c_bytes_refuted :
+  dec_run false [24; -5] = DOk [Tok (Uint (-5)) None] [] 0 /\
+  pump_c2c false [24; -5] = PumpOk [-5] [] /\
+  dec_run false [-5] = DFail EEof [] 0.
+Proof. vm_compute. repeat split; reflexivity. Qed.
+
+(* (c) the 32 MiB cap is per chunk when reading (chunks of an indefinite string
+   are concatenated) but per item when re-reading the definite string the
+   encoder writes: a longer string is written, and cannot be read back *)
+Example pump_c2c_chunks_concatenate :
+  dec_run false [127; 97; 120; 97; 121; 255] = DOk [Tok (Str [120; 121]) None] [] 16.
+Proof. vm_compute. reflexivity. Qed.
+
+Lemma pump_cap_refuted : forall c s,
+  item_cap < Z.of_nat (length s) -> Z.of_nat (length s) <= maxInt ->
+  exists chunks, enc_tokens [Tok (Str s) None] = Finished chunks 1 /\
+    exists toks a, dec_run c (concat chunks) = DFail EMalformed toks a.
+Proof.
+  intros c s Hbig Hmax.
+  exists (enc_string s). split; [reflexivity|].
+  unfold enc_string. rewrite concat_app, emit_head_eq. cbn [concat]. rewrite app_nil_r.
+  destruct (dec_len_head 96 (blen s) s) as (b & tl & Hbt & Hb & Hdl).
+  { unfold major. lia. }
+  { unfold blen. lia. }
+  apply (dec_error 2 c). change majString with 96. rewrite Hbt. rewrite pitem_S.
+  assert (Htag : is_tag_byte b = false) by (unfold is_tag_byte, majTag, majSimple; lia).
+  rewrite Htag. rewrite pbody_string by lia.
+  unfold dec_bytes. rewrite Hdl.
+  assert (Hc : item_cap <? blen s = true) by (unfold blen; lia).
+  rewrite Hc. reflexivity.
+Qed.
+
+Print Assumptions flatten_inj.
+Print Assumptions grammar_ok_wf.
+Print Assumptions pump_c2c_value.
+Print Assumptions pump_c2c_idempotent.
+Print Assumptions pump_c2c_error.
+Print Assumptions pump_c2c_err_iff_tokens.
+Print Assumptions pump_c2c_err_iff.
+Print Assumptions pump_cap_refuted.
+
+(* ====================================================================== *)
+(* 7. The JSON reading: what it can produce, and stability under extension *)
+(* ====================================================================== *)
+
+Definition nosoft {A} : A -> Prop := fun _ => False.
+Definition numsoft (n : tnode) : Prop :=
+  match n with Node _ (VInt _) | Node _ (VUint _) | Node _ (VFlt _) => True | _ => False end.
+
+(* [jgood soft P g]: the value of a successful run satisfies [P]; the run is
+   unchanged by appending [ext], provided that — when the run consumed the
+   whole input and its value is [soft] (a number, which has no closing
+   delimiter) — [ext] does not start with a character that continues a number *)
+Definition jgood {A} (soft P : A -> Prop) (g : bytes -> pres A) : Prop :=
+  forall bs a rest, g bs = POk a rest ->
+    P a /\ forall ext, (rest = [] -> soft a -> terminator_ok ext) -> g (bs ++ ext) = POk a (rest ++ ext).
+
+Lemma jgood_ext {A} (s P : A -> Prop) g h : (forall bs, g bs = h bs) -> jgood s P h -> jgood s P g.
+Proof.
+  intros E H bs a rest G. rewrite E in G. destruct (H _ _ _ G) as [Pa X].
+  split; [exact Pa|]. intros ext Hc. rewrite E. apply X. exact Hc.
+Qed.
+
+Lemma jgood_weaken {A} (s s' P Q : A -> Prop) g :
+  (forall a, P a -> Q a) -> (forall a, s a -> s' a) -> jgood s P g -> jgood s' Q g.
+Proof.
+  intros HPQ Hs H bs a rest G. destruct (H _ _ _ G) as [Pa X]. split; [auto|].
+  intros ext Hc. apply X. intros Hr Ha. apply Hc; auto.
+Qed.
+
+Lemma jgood_ret {A} (s P : A -> Prop) (a : A) : P a -> jgood s P (fun bs => POk a bs).
+Proof. intros Pa bs a' rest G. inversion G; subst. split; [exact Pa|reflexivity]. Qed.
+
+Lemma jgood_fail {A} (s P : A -> Prop) (r : pres A) : (forall a rest, r <> POk a rest) -> jgood s P (fun _ => r).
+Proof. intros H bs a rest G. exfalso. eapply H; eauto. Qed.
+
+Lemma jgood_err {A} (s P : A -> Prop) e : jgood s P (fun _ => @PErr A e).
+Proof. apply jgood_fail. discriminate. Qed.
+
+Lemma jgood_map {A B} (s P : A -> Prop) (s' Q : B -> Prop) (k : A -> B) g :
+  jgood s P g -> (forall a, P a -> Q (k a)) -> (forall a, s a -> s' (k a)) -> jgood s' Q (pmap k g).
+Proof.
+  intros H HQ Hs bs b rest G. unfold pmap in *.
+  destruct (g bs) as [a r|e|] eqn:E; inversion G; subst.
+  destruct (H _ _ _ E) as [Pa X]. split; [auto|].
+  intros ext Hc. rewrite X; [reflexivity|]. intros Hr Ha. apply Hc; auto.
+Qed.
+
+Lemma jgood_bind {A B} (s1 P : A -> Prop) (s2 Q : B -> Prop) (g : bytes -> pres A) (h : A -> bytes -> pres B) :
+  jgood s1 P g -> (forall a, jgood s2 (fun b => P a -> Q b) (h a)) ->
+  (forall a b rest, s1 a -> h a [] <> POk b rest) ->
+  jgood s2 Q (pbind g h).
+Proof.
+  intros H Hh Hnil bs b rest G. unfold pbind in *.
+  destruct (g bs) as [a r|e|] eqn:E; try discriminate.
+  destruct (H _ _ _ E) as [Pa X]. destruct (Hh a _ _ _ G) as [Qb X2]. split; [auto|].
+  intros ext Hc. rewrite X.
+  - apply X2. exact Hc.
+  - intros -> Ha. exfalso. eapply Hnil; eauto.
+Qed.
+
+Lemma skip_ws_app_cons bs mb r ext : skip_ws bs = mb :: r -> skip_ws (bs ++ ext) = mb :: r ++ ext.
+Proof.
+  induction bs as [|b bs IH]; cbn [skip_ws app]; [discriminate|].
+  destruct (is_ws b); [exact IH|]. intros H. inversion H; subst. reflexivity.
+Qed.
+
+Lemma jgood_ws {A} (s P : A -> Prop) (h : Z -> bytes -> pres A) :
+  (forall mb, jgood s P (h mb)) -> jgood s P (fun bs => pcons h (skip_ws bs)).
+Proof.
+  intros H bs a rest G. cbv beta in G.
+  destruct (skip_ws bs) as [|mb r] eqn:E; [discriminate|]. cbn [pcons] in G.
+  destruct (H mb r a rest G) as [Pa X]. split; [exact Pa|].
+  intros ext Hc. rewrite (skip_ws_app_cons _ _ _ ext E). cbn [pcons]. apply X. exact Hc.
+Qed.
+
+Lemma jgood_sum_map {A B} (s P : A -> Prop) (s' Q : B -> Prop) (t : bytes -> (A * bytes) + derr) (k : A -> B) :
+  jgood s P (fun bs => of_sum (t bs)) -> (forall a, P a -> Q (k a)) -> (forall a, s a -> s' (k a)) ->
+  jgood s' Q (fun bs => match t bs with inl (b, rest) => POk (k b) rest | inr e => PErr e end).
+Proof.
+  intros H HQ Hs. eapply jgood_ext with (h := pmap k (fun bs => of_sum (t bs))).
+  - intros bs. unfold pmap. destruct (t bs) as [[a r]|e]; reflexivity.
+  - eapply jgood_map; eauto.
+Qed.
+
+(* a [good] reader extends unconditionally *)
+Lemma good_jgood {A} (P0 : A -> Prop) (s : A -> Prop) g : good P0 g -> jgood s (fun _ => True) g.
+Proof. intros H bs a rest G. destruct (H _ _ _ G) as [X _]. split; [exact I|]. intros ext _. apply X. Qed.
+
+(* ---------- literals ------------------------------------------------------- *)
+
+Lemma dec_literal_shape (w : bytes) (v : tnode) bs :
+  match dec_literal w bs with inl rest => POk v rest | inr e => PErr e end =
+  pbind (fun bs => of_sum (readn (Z.of_nat (length w)) bs))
+        (fun got rest => if forallb (fun p => fst p =? snd p) (combine got w)
+                         then POk v rest else PErr EMalformed) bs.
+Proof.
+  unfold dec_literal, pbind.
+  destruct (readn (Z.of_nat (length w)) bs) as [[got rest]|e]; cbn [of_sum]; [|reflexivity].
+  destruct (forallb (fun p => fst p =? snd p) (combine got w)); reflexivity.
+Qed.
+
+Lemma jgood_literal (s P : tnode -> Prop) (w : bytes) (v : tnode) : P v ->
+  jgood s P (fun bs => match dec_literal w bs with inl rest => POk v rest | inr e => PErr e end).
+Proof.
+  intros Pv. eapply jgood_ext; [intros bs; apply dec_literal_shape|].
+  eapply jgood_bind with (s1 := nosoft) (P := fun _ => True).
+  - eapply good_jgood. apply good_readn.
+  - intros got. destruct (forallb (fun p => fst p =? snd p) (combine got w)); [apply jgood_ret; auto|apply jgood_err].
+  - intros a b rest [].
+Qed.
+
+(* ---------- strings -------------------------------------------------------- *)
+
+Lemma str_scan_ext : forall bs st acc raw rest ext,
+  str_scan st bs acc = inl (raw, rest) -> str_scan st (bs ++ ext) acc = inl (raw, rest ++ ext).
+Proof.
+  induction bs as [|c r IH]; intros st acc raw rest ext H; [discriminate|].
+  cbn [app str_scan] in *.
+  destruct st;
+    repeat match type of H with context [if ?b then _ else _] => destruct b end;
+    try discriminate; try (apply IH; exact H).
+  inversion H; subst. reflexivity.
+Qed.
+
+Lemma encode_rune_bytes_ok r : bytes_ok (encode_rune r).
+Proof.
+  unfold encode_rune.
+  destruct ((0 <=? r) && (r <? 128)) eqn:E1.
+  { repeat constructor; unfold byte_ok; lia. }
+  destruct ((0 <=? r) && (r <? 2048)) eqn:E2.
+  { assert (0 <= r / 64 < 32) by (split; [apply Z.div_pos; lia|apply Z.div_lt_upper_bound; lia]).
+    pose proof (Z.mod_pos_bound r 64 ltac:(lia)).
+    repeat constructor; unfold byte_ok; lia. }
+  destruct ((r <? 0) || (1114111 <? r) || ((55296 <=? r) && (r <=? 57343))) eqn:E3.
+  { repeat constructor; unfold byte_ok; lia. }
+  assert (Hr : 0 <= r <= 1114111) by lia.
+  destruct (r <? 65536) eqn:E4.
+  - assert (0 <= r / 4096 < 16) by (split; [apply Z.div_pos; lia|apply Z.div_lt_upper_bound; lia]).
+    pose proof (Z.mod_pos_bound (r / 64) 64 ltac:(lia)). pose proof (Z.mod_pos_bound r 64 ltac:(lia)).
+    repeat constructor; unfold byte_ok; lia.
+  - assert (0 <= r / 262144 < 5) by (split; [apply Z.div_pos; lia|apply Z.div_lt_upper_bound; lia]).
+    pose proof (Z.mod_pos_bound (r / 4096) 64 ltac:(lia)).
+    pose proof (Z.mod_pos_bound (r / 64) 64 ltac:(lia)). pose proof (Z.mod_pos_bound r 64 ltac:(lia)).
+    repeat constructor; unfold byte_ok; lia.
+Qed.
+
+Lemma bytes_ok_cons b t : 0 <= b < 256 -> bytes_ok t -> bytes_ok (b :: t).
+Proof. intros. constructor; assumption. Qed.
+
+Lemma unescape_bytes_ok : forall fuel s t, unescape fuel s = Some t -> bytes_ok t.
+Proof.
+  induction fuel as [|f IH]; intros s t H; cbn [unescape] in H.
+  { inversion H. constructor. }
+  destruct s as [|c r]; [inversion H; constructor|].
+  cbv zeta in H.
+  repeat match type of H with
+  | context [match unescape f ?x with _ => _ end] =>
+      let E := fresh "E" in destruct (unescape f x) as [?t|] eqn:E; [apply IH in E|discriminate]
+  | context [if ?b then _ else _] => let E := fresh "B" in destruct b eqn:E
+  | context [match ?l with [] => _ | _ :: _ => _ end] => destruct l
+  | context [let '(_, _) := ?p in _] => destruct p
+  end; try discriminate; inversion H; subst; clear H;
+  first [ apply bytes_ok_app; split; [apply encode_rune_bytes_ok|assumption]
+        | repeat (apply bytes_ok_cons; [lia|]); assumption ].
+Qed.
+
+Lemma jgood_dec_string : jgood nosoft bytes_ok (fun bs => of_sum (dec_string bs)).
+Proof.
+  intros bs a rest G. unfold dec_string in *.
+  destruct (str_scan SNormal bs []) as [[raw r]|e] eqn:E; [|discriminate].
+  split.
+  - destruct (unescape (S (length raw)) raw) as [s|] eqn:U; cbn [of_sum] in G; inversion G; subst.
+    + eapply unescape_bytes_ok; eauto.
+    + constructor.
+  - intros ext _. rewrite (str_scan_ext _ _ _ _ _ ext E).
+    destruct (unescape (S (length raw)) raw); cbn [of_sum] in *; inversion G; subst; reflexivity.
+Qed.
+
+(* ---------- numbers -------------------------------------------------------- *)
+
+Lemma num_step_term s c : n_accepting s = true -> is_numchar c = false -> num_step s c = (None, true).
+Proof.
+  intros Hs Hc. apply numchar_false in Hc. destruct Hc as (Hd & H46 & H101 & H69).
+  destruct s; try discriminate Hs; unfold num_step; rewrite ?Hd, ?H46, ?H101, ?H69; reflexivity.
+Qed.
+
+Lemma num_scan_ext : forall bs s acc more rest ext,
+  num_scan s bs acc = inl (more, rest) -> (rest = [] -> terminator_ok ext) ->
+  num_scan s (bs ++ ext) acc = inl (more, rest ++ ext).
+Proof.
+  induction bs as [|c r IH]; intros s acc more rest ext H Hc.
+  - cbn [num_scan] in H. destruct (n_accepting s) eqn:Acc; inversion H; subst.
+    specialize (Hc eq_refl). cbn [app]. destruct ext as [|x ext]; cbn [num_scan].
+    + rewrite Acc. reflexivity.
+    + cbn [terminator_ok] in Hc. rewrite (num_step_term _ _ Acc Hc). reflexivity.
+  - cbn [app num_scan] in *. destruct (num_step s c) as [[s'|] ok].
+    + apply IH; assumption.
+    + destruct ok; [|discriminate]. inversion H; subst. reflexivity.
+Qed.
+
+Definition num_start (first : Z) : nstate :=
+  if first =? 45 then NNeg else if first =? 48 then N0 else N1.
+
+Definition numres (v : tokv) (rest : bytes) : pres tnode :=
+  match v with
+  | Int i => POk (Node None (VInt i)) rest
+  | Uint u => POk (Node None (VUint u)) rest
+  | Flt b => POk (Node None (VFlt b)) rest
+  | _ => PErr EMalformed
+  end.
+
+Definition jnum (mb : Z) (r : bytes) : pres tnode :=
+  match num_scan (num_start mb) r [] with
+  | inr e => PErr e
+  | inl (more, rest) =>
+      match num_token (mb :: more) with
+      | inl v => numres v rest
+      | inr e => PErr e
+      end
+  end.
+
+Lemma jnum_eq mb r :
+  match dec_number mb r with
+  | inl (Int i, rest) => POk (Node None (VInt i)) rest
+  | inl (Uint u, rest) => POk (Node None (VUint u)) rest
+  | inl (Flt b, rest) => POk (Node None (VFlt b)) rest
+  | inl (_, _) => PErr EMalformed
+  | inr e => PErr e
+  end = jnum mb r.
+Proof.
+  unfold dec_number, jnum, num_start. cbv zeta.
+  destruct (num_scan (if mb =? 45 then NNeg else if mb =? 48 then N0 else N1) r [])
+    as [[more rest]|e]; [|reflexivity].
+  destruct (num_token (mb :: more)) as [v|e]; [|reflexivity].
+  destruct v; reflexivity.
+Qed.
+
+(* ranges of the number tokens *)
+Lemma take_digits_digits : forall bs acc ds r,
+  take_digits bs acc = (ds, r) -> Forall digitP acc -> Forall digitP ds.
+Proof.
+  induction bs as [|d bs IH]; intros acc ds r H Hacc; cbn [take_digits] in H.
+  - inversion H; subst. apply Forall_rev. exact Hacc.
+  - destruct (is_digit d) eqn:E.
+    + eapply IH; [exact H|]. constructor; assumption.
+    + inversion H; subst. apply Forall_rev. exact Hacc.
+Qed.
+
+Lemma digits_val_nonneg : forall ds acc, Forall digitP ds -> 0 <= acc -> 0 <= digits_val ds acc.
+Proof.
+  induction ds as [|d ds IH]; intros acc Hd Ha; cbn [digits_val]; [exact Ha|].
+  inversion Hd as [|? ? Hd1 Hd2]; subst. apply IH; [exact Hd2|].
+  apply is_digit_range in Hd1. lia.
+Qed.
+
+Lemma div_rne_nonneg num den : 0 <= num -> 0 < den -> 0 <= div_rne num den.
+Proof.
+  intros Hn Hd. unfold div_rne. pose proof (Z.div_pos num den Hn Hd).
+  destruct ((den <? 2 * (num mod den)) || ((den =? 2 * (num mod den)) && Z.odd (num / den))); lia.
+Qed.
+
+Definition np_tail (num den e2 : Z) : fres :=
+  let e2' := Z.max e2 (-1022) in
+  let s := 52 - e2' in
+  let q := if 0 <=? s then div_rne (num * 2 ^ s) den else div_rne num (den * 2 ^ (- s)) in
+  let bits := if q <? 4503599627370496 then q else (e2' + 1022) * 4503599627370496 + q in
+  if 9218868437227405312 <=? bits then FRange else FBits bits.
+
+Lemma np_tail_range num den e2 b : 0 <= num -> 0 < den ->
+  np_tail num den e2 = FBits b -> 0 <= b < 9218868437227405312.
+Proof.
+  intros Hn Hd H. unfold np_tail in H.
+  set (e2' := Z.max e2 (-1022)) in *. cbv zeta in H.
+  set (s := 52 - e2') in *.
+  set (q := if 0 <=? s then div_rne (num * 2 ^ s) den else div_rne num (den * 2 ^ (- s))) in *.
+  assert (Hq : 0 <= q).
+  { subst q. destruct (0 <=? s).
+    - apply div_rne_nonneg; [|exact Hd]. apply Z.mul_nonneg_nonneg; [exact Hn|apply Z.pow_nonneg; lia].
+    - apply div_rne_nonneg; [exact Hn|]. apply Z.mul_pos_pos; [exact Hd|].
+      destruct (Z_le_gt_dec 0 (- s)); [apply Z.pow_pos_nonneg; lia|].
+      (* 2 ^ negative = 0 would make the divisor 0; the branch is only taken for s < 0 *)
+      exfalso. lia. }
+  assert (He : -1022 <= e2') by (subst e2'; lia).
+  destruct (q <? 4503599627370496);
+    match type of H with context [?x <=? ?y] => destruct (Z.leb_spec x y) end;
+    try discriminate; inversion H; subst; nia.
+Qed.
+
+Lemma nearest_pos_eq m e10 nd :
+  nearest_pos m e10 nd =
+  if m =? 0 then FBits 0
+  else if 310 <? e10 + nd then FRange
+  else if e10 + nd <? -330 then FBits 0
+  else
+    let num := if 0 <=? e10 then m * 10 ^ e10 else m in
+    let den := if 0 <=? e10 then 1 else 10 ^ (- e10) in
+    let g := Z.log2 num - Z.log2 den in
+    np_tail num den (if (if 0 <=? g then num <? den * 2 ^ g else num * 2 ^ (- g) <? den) then g - 1 else g).
+Proof. reflexivity. Qed.
+
+Lemma nearest_range neg m e10 nd b : 0 <= m ->
+  nearest neg m e10 nd = FBits b -> 0 <= b < 18446744073709551616.
+Proof.
+  intros Hm H. unfold nearest in H. rewrite nearest_pos_eq in H.
+  assert (Hgoal : forall b0, (if neg then b0 + 9223372036854775808 else b0) = b ->
+                             0 <= b0 < 9218868437227405312 -> 0 <= b < 18446744073709551616).
+  { intros b0 <- Hb0. destruct neg; lia. }
+  destruct (m =? 0); [inversion H; eapply Hgoal; eauto; lia|].
+  destruct (310 <? e10 + nd); [discriminate|].
+  destruct (e10 + nd <? -330); [inversion H; eapply Hgoal; eauto; lia|].
+  cbv zeta in H.
+  match type of H with context [np_tail ?n ?d ?e] => destruct (np_tail n d e) as [b0|] eqn:E end;
+    [|discriminate].
+  inversion H. eapply Hgoal; [eassumption|].
+  eapply np_tail_range; [| |exact E].
+  - destruct (0 <=? e10); [|exact Hm]. apply Z.mul_nonneg_nonneg; [exact Hm|apply Z.pow_nonneg; lia].
+  - destruct (Z.leb_spec 0 e10); [lia|]. apply Z.pow_pos_nonneg; lia.
+Qed.
+
+Definition num_range (v : tokv) : Prop :=
+  match v with
+  | Int i => min_int64 <= i <= max_int64
+  | Uint u => 0 <= u <= max_uint64
+  | Flt b => 0 <= b < 18446744073709551616
+  | _ => False
+  end.
+
+Lemma num_token_range text v : num_token text = inl v -> num_range v.
+Proof.
+  unfold num_token. intros H.
+  destruct (match text with 45 :: r => (true, r) | _ => (false, text) end) as [neg body].
+  destruct (take_digits body []) as [ip r1] eqn:Eip.
+  pose proof (take_digits_digits _ _ _ _ Eip (Forall_nil _)) as Hip.
+  destruct r1 as [|c1 r1'].
+  - pose proof (digits_val_nonneg ip 0 Hip ltac:(lia)) as Hv.
+    cbv zeta in H.
+    destruct ((min_int64 <=? (if neg then - digits_val ip 0 else digits_val ip 0)) &&
+              ((if neg then - digits_val ip 0 else digits_val ip 0) <=? max_int64)) eqn:E1.
+    + inversion H; subst. cbn [num_range]. lia.
+    + destruct (negb neg && (digits_val ip 0 <=? max_uint64)) eqn:E2; [|discriminate].
+      inversion H; subst. cbn [num_range]. lia.
+  - set (r1 := c1 :: r1') in *.
+    destruct (match r1 with 46 :: r => take_digits r [] | _ => ([], r1) end) as [fp r2] eqn:Efp.
+    assert (Hfp : Forall digitP fp).
+    { subst r1. destruct (Z.eq_dec c1 46) as [->|Hne].
+      - eapply take_digits_digits; [exact Efp|constructor].
+      - assert (fp = []) as ->; [|constructor].
+        destruct c1 as [|p|p]; try (inversion Efp; reflexivity).
+        do 6 (destruct p as [p|p|]; try (inversion Efp; reflexivity)). exfalso. apply Hne. reflexivity. }
+    cbv zeta in H.
+    match type of H with context [nearest ?a ?b ?c ?d] => destruct (nearest a b c d) as [bits|] eqn:En end;
+      [|discriminate].
+    inversion H; subst. cbn [num_range].
+    eapply nearest_range; [|exact En].
+    apply digits_val_nonneg; [|lia]. apply Forall_app. split; assumption.
+Qed.
